@@ -447,7 +447,17 @@ def _norm_enc(e):
     return _ENC_ALIASES.get(e.replace("_", ""), e)
 
 
+_SURROGATEPASS = [False]
+
+
 def decode(data, encoding="utf-8", errors="strict"):
+    if errors == "surrogatepass":
+        # lone surrogates are let through as code points (utf-8 / utf-16 / utf-32 only, as in CPython)
+        _SURROGATEPASS[0] = True
+        try:
+            return decode(data, encoding, "strict")
+        finally:
+            _SURROGATEPASS[0] = False
     items = _lift_bytes(data)
     e = _norm_enc(encoding)
     if errors != "strict":
@@ -498,7 +508,7 @@ def _dec_utf8(items):
             cp = ((b - 0xE0) * 64 + c1) * 64 + c2
             if cp < 0x800:
                 raise _err("utf-8", "invalid continuation byte")
-            if cp >= 0xD800 and cp <= 0xDFFF:
+            if not _SURROGATEPASS[0] and cp >= 0xD800 and cp <= 0xDFFF:
                 raise _err("utf-8", "invalid continuation byte")
             out.append(cp)
             i += 3
@@ -536,14 +546,23 @@ def _dec_utf16(items, e):
         u = unit(i)
         i += 2
         if u >= 0xD800 and u <= 0xDBFF:
+            if i >= n and _SURROGATEPASS[0]:
+                out.append(u)
+                continue
             if i >= n:
                 raise _err("utf-16", "unexpected end of data")
             v = unit(i)
             if not (v >= 0xDC00) or not (v <= 0xDFFF):
+                if _SURROGATEPASS[0]:
+                    out.append(u)
+                    continue
                 raise _err("utf-16", "illegal UTF-16 surrogate")
             i += 2
             out.append(0x10000 + (u - 0xD800) * 1024 + (v - 0xDC00))
         elif u >= 0xDC00 and u <= 0xDFFF:
+            if _SURROGATEPASS[0]:
+                out.append(u)
+                continue
             raise _err("utf-16", "illegal encoding")
         else:
             out.append(u)
@@ -570,7 +589,7 @@ def _dec_utf32(items, e):
         cp = ((bs[0] * 256 + bs[1]) * 256 + bs[2]) * 256 + bs[3]
         if cp > 0x10FFFF:
             raise _err("utf-32", "code point not in range(0x110000)")
-        if cp >= 0xD800 and cp <= 0xDFFF:
+        if not _SURROGATEPASS[0] and cp >= 0xD800 and cp <= 0xDFFF:
             raise _err("utf-32", "code point in surrogate code point range")
         out.append(cp)
         i += 4
